@@ -26,6 +26,9 @@ def SyncContext.connect (k : Kind) (slave : Option UInt8) (timeout : Bool) : Syn
       | none => Client.attach k,
     timeout := timeout }
 
+/-- `set_timeout` / `reset_timeout` -/
+def SyncContext.setTimeout (s : SyncContext) (on : Bool) : SyncContext := { s with timeout := on }
+
 def SyncContext.setSlave (s : SyncContext) (id : UInt8) : SyncContext :=
   { s with asyncCtx := s.asyncCtx.setSlave id }
 
